@@ -2,6 +2,7 @@
    Only statements here; proofs in Proofs/C02_Types.v; the model in Model/C02_Types.v. *)
 From Coq Require Import ZArith List Bool.
 From Elk Require Import Model.C02_Types Proofs.C02_Types Model.C02_Classes Proofs.C02_Classes.
+From Elk Require Import Model.C02_Iface Proofs.C02_Iface.
 Import ListNotations.
 Open Scope Z_scope.
 
@@ -248,4 +249,80 @@ Example C02_cls_preservation_nonvacuous :
     Some [(3, KAnd (KUnion (KClass 1) (KUnion (KClass 4) KNil)) (KNot (KClass 2)), VObj 1);
           (5, KClass 1, VObj 1)] /\
   length (kannot true G cls_sample) = 6%nat.
+Proof. vm_compute. repeat split; reflexivity. Qed.
+
+(* ================================================================================================
+   GENERIC classes, GENERIC interfaces, IMPLICIT (structural) implementation - Model/C02_Iface.v.
+   For ALL class tables whose method bodies fit their declared signatures (ctab_ok - what the real
+   checker verifies on the class definition), ALL interface tables, types and values:
+   `isub` (C[s] <: C[t] and I[s] <: I[t] with INVARIANT type arguments; C[s] <: I[t] and J[s] <: I[t]
+   structurally: every method of I[t] has a same-named method of the same arity whose parameter type
+   is contravariant and whose return type is covariant after substituting the type arguments) is sound
+   for the value-set semantics in which [[I[t]]] is the set of objects that RESPOND to every method
+   of I[t] with results of the declared return type (a behavioural definition). *)
+Theorem C02_iface_subtype_sound : forall ct it a b v,
+  ctab_ok ct = true -> isub ct it a b = true -> gmem ct it a v -> gmem ct it b v.
+Proof. exact iface_subtype_sound. Qed.
+Print Assumptions C02_iface_subtype_sound.
+
+(* Preservation for a call `s.m(x)` / `s.m` through a receiver of interface type I[t]: the result is a
+   value of the method's declared return type after substitution of t. *)
+Theorem C02_iface_call_preservation : forall ct it i t d item m p R arg,
+  gmem ct it (GI i t) (VO d item) ->
+  In (m, (p, R)) (imeths it i) ->
+  arg_fits (bat [] t) p arg ->
+  exists r, gcall ct d item m arg = Some r /\ bmem (bat [] t) R r = true.
+Proof. exact iface_call_preservation. Qed.
+Print Assumptions C02_iface_call_preservation.
+
+(* ... and end to end: a value of ANY type the checker accepts where I[t] is expected (an argument for a
+   parameter `s: I[t]`) is an object, the call is defined for it and returns a value of the static
+   return type. *)
+Theorem C02_iface_pass_call_sound : forall ct it a i t v m p R arg,
+  ctab_ok ct = true ->
+  isub ct it a (GI i t) = true ->
+  gmem ct it a v ->
+  In (m, (p, R)) (imeths it i) ->
+  arg_fits (bat [] t) p arg ->
+  exists d item r, v = VO d item /\ gcall ct d item m arg = Some r /\ bmem (bat [] t) R r = true.
+Proof. exact iface_pass_call_sound. Qed.
+Print Assumptions C02_iface_pass_call_sound.
+
+(* the executable membership used by the correspondence (one representative argument per atom)
+   decides the behavioural value sets exactly *)
+Theorem C02_iface_gmem_decided : forall ct it ty v, gmem_b ct it ty v = true <-> gmem ct it ty v.
+Proof. exact gmem_b_iff. Qed.
+Print Assumptions C02_iface_gmem_decided.
+
+(* Histories: the specification of a checker run that answers a list of subtype questions about one
+   pair of tables answers the k-th question as if it were asked alone - whatever came before. *)
+Theorem C02_iface_history_independent : forall ct it pre q post,
+  nth (length pre) (hist ct it (pre ++ q :: post)) false = isub ct it (fst q) (snd q) /\
+  length (hist ct it (pre ++ q :: post)) = length (pre ++ q :: post).
+Proof. intros; split; [apply hist_independent | apply hist_length]. Qed.
+Print Assumptions C02_iface_history_independent.
+
+(* ---- non-vacuity.  interface 1 = Source[T] { m0: T }, interface 2 = Sink[T] { m1(x: T): Int };
+   class 1 = Cell[T] { m0: T = @item; m1(x: T): Int = 1 }, class 2 = IntBox { m0: Int = 3 }. *)
+Definition it_demo : itab := [(1, [(0, (None, BVar))]); (2, [(1, (Some BVar, BAtom AInt))])].
+Definition ct_demo : ctab :=
+  [(1, [(0, ((None, BVar), BdItem)); (1, ((Some BVar, BAtom AInt), BdConst (AInt, 1)))]);
+   (2, [(0, ((None, BAtom AInt), BdConst (AInt, 3)))])].
+Definition bIS : bty := BOr (BAtom AInt) (BAtom AStr).
+
+Example C02_iface_nonvacuous :
+  ctab_ok ct_demo = true /\
+  (* the two steps of the history `Cell[Int] as Source[Int]` then `Cell[Int] as Source[String]` *)
+  hist ct_demo it_demo [(GC 1 (BAtom AInt), GI 1 (BAtom AInt)); (GC 1 (BAtom AInt), GI 1 (BAtom AStr))]
+    = [true; false] /\
+  isub ct_demo it_demo (GC 1 (BAtom AInt)) (GI 1 bIS) = true /\          (* covariant return *)
+  isub ct_demo it_demo (GC 1 bIS) (GI 2 (BAtom AInt)) = true /\          (* contravariant parameter *)
+  isub ct_demo it_demo (GC 1 (BAtom AInt)) (GI 2 bIS) = false /\
+  isub ct_demo it_demo (GC 1 (BAtom AInt)) (GC 1 bIS) = false /\         (* invariant class argument *)
+  isub ct_demo it_demo (GI 1 (BAtom AInt)) (GI 1 bIS) = false /\
+  isub ct_demo it_demo (GC 2 (BAtom AInt)) (GI 1 (BAtom AInt)) = true /\
+  isub ct_demo it_demo (GC 2 (BAtom AInt)) (GI 2 (BAtom AInt)) = false /\
+  gmem_b ct_demo it_demo (GI 1 (BAtom AInt)) (VO 1 (AInt, 41)) = true /\
+  gmem_b ct_demo it_demo (GI 1 (BAtom AStr)) (VO 1 (AInt, 41)) = false /\
+  gcall ct_demo 1 (AInt, 41) 0 None = Some (AInt, 41).
 Proof. vm_compute. repeat split; reflexivity. Qed.
